@@ -38,6 +38,55 @@ type wallet struct {
 	// utxos per node (branch-local view).
 	views map[*Node][]Utxo
 	ctr   uint32
+
+	// opaquePct (Config.OpaqueSpendPct, default 0 = never, no extra random
+	// draws) is the share of generated inputs whose spent script cannot be
+	// recovered from the input itself; forced are spends queued by
+	// Gen.ForceSpend for the next block built.
+	opaquePct int
+	forced    []forcedSpend
+}
+
+// SpendShape says how the input spending an output looks.
+type SpendShape int
+
+const (
+	// SpendRecoverable: P2WPKH witness / P2PKH signature script from which
+	// txscript.ComputePkScript recovers the spent script (the only shape
+	// produced unless asked otherwise).
+	SpendRecoverable SpendShape = iota
+	// SpendEmpty: empty signature script and empty witness (an
+	// anyone-can-spend output, an unsigned transaction): ComputePkScript
+	// returns an error.
+	SpendEmpty
+	// SpendNonPush: a signature script that is not push-only (starts with
+	// OP_NOP), no witness: ComputePkScript returns an error.
+	SpendNonPush
+	// SpendTruncPush: a signature script whose last push announces more
+	// bytes than follow (does not parse): ComputePkScript returns an error.
+	SpendTruncPush
+	// SpendKeyPath: a single 64-byte witness element (taproot key-path
+	// look): ComputePkScript "recovers" a P2WSH script that is not the one
+	// spent.
+	SpendKeyPath
+	NumSpendShapes
+)
+
+// OpaqueShapes are the shapes from which the spent script cannot be (rightly)
+// recovered.
+var OpaqueShapes = []SpendShape{SpendEmpty, SpendNonPush, SpendTruncPush, SpendKeyPath}
+
+type forcedSpend struct {
+	op    wire.OutPoint
+	shape SpendShape
+}
+
+// ForceSpend queues a spend of u with the given input shape: the next block
+// built by this generator on a parent whose UTXO view holds u contains a
+// transaction (right after the coinbase) spending it. Filters stay correct:
+// they are built from the previous-output scripts the generator knows itself.
+func (g *Gen) ForceSpend(u Utxo, shape SpendShape) {
+	g.wallet.forced = append(g.wallet.forced, forcedSpend{op: u.Op, shape: shape})
 }
 
 func hash160(b []byte) []byte { return address.Hash160(b) }
@@ -73,8 +122,32 @@ func (w *wallet) fakeSig() []byte {
 
 // spend builds the input for u.
 func (w *wallet) spend(u Utxo) *wire.TxIn {
+	if w.opaquePct > 0 && w.rng.Intn(100) < w.opaquePct {
+		return w.spendShaped(u, OpaqueShapes[w.rng.Intn(len(OpaqueShapes))])
+	}
+	return w.spendShaped(u, SpendRecoverable)
+}
+
+// spendShaped builds the input for u with the given shape.
+func (w *wallet) spendShaped(u Utxo, shape SpendShape) *wire.TxIn {
 	in := wire.NewTxIn(&u.Op, nil, nil)
 	k := w.Keys[u.Key]
+	switch shape {
+	case SpendEmpty:
+		return in
+	case SpendNonPush:
+		sb := txscript.NewScriptBuilder().AddOp(txscript.OP_NOP).AddData(w.fakeSig()).AddData(k.Pub)
+		in.SignatureScript, _ = sb.Script()
+		return in
+	case SpendTruncPush:
+		sb := txscript.NewScriptBuilder().AddData(w.fakeSig())
+		in.SignatureScript, _ = sb.Script()
+		in.SignatureScript = append(in.SignatureScript, txscript.OP_DATA_33, k.Pub[0], k.Pub[1])
+		return in
+	case SpendKeyPath:
+		in.Witness = wire.TxWitness{w.fakeSig()[:64]}
+		return in
+	}
 	if u.Legacy {
 		sb := txscript.NewScriptBuilder().AddData(w.fakeSig()).AddData(k.Pub)
 		in.SignatureScript, _ = sb.Script()
@@ -145,11 +218,16 @@ func (g *Gen) buildBlock(parent *Node, h wire.BlockHeader, chain []wire.BlockHea
 	}
 	var txs []pending
 
+	forcedShape := SpendShape(-1) // >= 0: shape of every input of the next addTx
 	addTx := func(ins []Utxo, nOut int, opret bool) *wire.MsgTx {
 		tx := wire.NewMsgTx(2)
 		var total int64
 		for _, u := range ins {
-			tx.AddTxIn(w.spend(u))
+			if forcedShape >= 0 {
+				tx.AddTxIn(w.spendShaped(u, forcedShape))
+			} else {
+				tx.AddTxIn(w.spend(u))
+			}
 			prevScripts = append(prevScripts, u.Script)
 			total += u.Value
 		}
@@ -190,6 +268,28 @@ func (g *Gen) buildBlock(parent *Node, h wire.BlockHeader, chain []wire.BlockHea
 		u := view[i]
 		view = append(view[:i], view[i+1:]...)
 		return u, true
+	}
+
+	// Spends queued by ForceSpend whose output is in this branch's view.
+	if len(w.forced) > 0 {
+		rest := w.forced[:0]
+		for _, f := range w.forced {
+			found := false
+			for i, u := range view {
+				if u.Op == f.op {
+					view = append(view[:i], view[i+1:]...)
+					forcedShape = f.shape
+					addTx([]Utxo{u}, 1+w.rng.Intn(2), false)
+					forcedShape = -1
+					found = true
+					break
+				}
+			}
+			if !found {
+				rest = append(rest, f)
+			}
+		}
+		w.forced = rest
 	}
 
 	nTx := 0
